@@ -36,9 +36,9 @@ extern "C" int LLVMFuzzerTestOneInput(const uint8_t *data, size_t size) {
   // ---- the request
   std::string reqline = "POST /p HTTP/1.1";
   std::vector<std::string> fields; fields.push_back("Host: h");
-  static const size_t BIG[] = {0, 1, 10, 100, 300, 1000, 5000, 20000, 40000};
+  static const size_t BIG[] = {0, 1, 10, 100, 300, 1000, 5000, 40000, 70000};
   bool huge_line = s.flag();
-  if (huge_line) { size_t n = s.chance(1, 8) ? BIG[5 + s.below(4)] : s.below(400); fields.push_back("X-Big: " + std::string(n, 'a')); }
+  if (huge_line) { size_t n = s.chance(1, 5) ? BIG[5 + s.below(4)] : s.below(400); fields.push_back("X-Big: " + std::string(n, 'a')); }
   else { int k = s.below(40); for (int i = 0; i < k; i++) fields.push_back("X-" + std::to_string(i) + ": v" + std::string(s.below(4), 'w')); }
   int bkind = s.below(3);   // 0 none, 1 content-length, 2 chunked
   size_t blen = 0; if (bkind) { blen = s.chance(1, 8) ? BIG[5 + s.below(4)] : (s.flag() ? BIG[s.below(5)] : s.below(600)); }
@@ -61,7 +61,11 @@ extern "C" int LLVMFuzzerTestOneInput(const uint8_t *data, size_t size) {
   std::string stream = reqline + "\r\n"; for (auto &f : fields) stream += f + "\r\n"; stream += "\r\n"; size_t hdr_bytes = stream.size(); stream += wire_body;
   // optionally cut the request short (never completes): inside the header section, or inside the long chunk-size line
   bool complete = true; uint32_t cutmode = s.below(10);
-  if (cutmode == 1 && hdr_bytes > 4) { stream.resize(hdr_bytes - 3 - s.below((uint32_t)std::min<size_t>(hdr_bytes - 4, 40))); complete = false; }
+  if (cutmode == 1 && hdr_bytes > 4) {
+    size_t bl = huge_line ? stream.find("X-Big: ") : std::string::npos;
+    if (bl != std::string::npos && s.flag()) { size_t le = stream.find("\r\n", bl); stream.resize(le - s.below((uint32_t)std::min<size_t>(le - bl, 8))); }   // inside / at the end of the huge line, no line end
+    else stream.resize(hdr_bytes - 3 - s.below((uint32_t)std::min<size_t>(hdr_bytes - 4, 40)));
+    complete = false; }
   else if (cutmode == 2 && long_chunk_line) { stream.resize(hdr_bytes + long_chunk_line - 1); complete = false; }
   // ---- limits
   long H = pick_limit(s, (long)fields_min, (long)total_max), B = pick_limit(s, (long)blen, (long)blen);
@@ -104,6 +108,7 @@ extern "C" int LLVMFuzzerTestOneInput(const uint8_t *data, size_t size) {
       CHECK(final_code == 200, "C25/delivered-status", "delivered but final status %d", final_code);
     } else if (complete) {
       rejected_any++;
+      if (long_chunk_line < 1000)   // a recipient may bound the length of a chunk-size line on its own (RFC 9112 7.1.1)
       CHECK(!(hdr_ok_max && body_ok), "C25/under-limit-rejected", "header section is at most %zu bytes and the body %zu bytes, limits are %ld / %ld, yet the request was not delivered (status %d, closed=%d)", total_max, blen, H, B, final_code, closed);
       CHECK(final_code == 413 || final_code == 400 || closed, "C25/over-limit-no-answer", "over-limit request neither answered with 413/400 nor closed (status %d)", final_code);
     }
